@@ -22,7 +22,7 @@ Z == <<"id", "z">>
 Id(n) == <<"id", n>>
 
 SpecialLeaves == {<<"num", "1">>, <<"str">>, <<"re">>, <<"tpl">>, <<"fn">>, <<"afn">>, <<"cls">>, <<"obj0">>,
-                  <<"this">>, <<"id", "let">>, <<"id", "async">>}
+                  <<"id", "let">>, <<"id", "async">>}
 
 (* one representative per precedence level and associativity class *)
 BinRep == {"??", "||", "&&", "|", "^", "&", "==", "<", "in", "instanceof", "<<", "+", "-", "*", "/", "**"}
@@ -58,13 +58,16 @@ T1(p) == T0(p) \cup Mk1(T0(p)) \cup Mk2(T0(p \o "0"), T0(p \o "1"))
 T1s(p) == Mk1(SpecialLeaves) \cup Mk2(SpecialLeaves, T0(p \o "1")) \cup Mk2(T0(p \o "0"), SpecialLeaves) \cup SpecialLeaves
 (* a reduced child alphabet: one node per level class *)
 Core(p) == {t \in T1(p) :
-   \/ Kind(t) \in {"id", "seq", "cond", "await", "yield", "new0", "new", "tag", "obj"}
+   \/ Kind(t) \in {"id", "seq", "await", "yield", "new0", "tag", "obj"}
+   \/ (Kind(t) = "cond" /\ t[4] = Z)
+   \/ (Kind(t) = "new" /\ t[3] = Y)
    \/ (Kind(t) = "arrow" /\ t[2] = "-")
    \/ (Kind(t) = "asg" /\ t[2] = "=")
-   \/ (Kind(t) = "bin" /\ t[2] \in {"??", "||", "|", "in", "+", "-", "**"})
-   \/ (Kind(t) = "un" /\ t[2] \in {"-", "+", "typeof"})
+   \/ (Kind(t) = "bin" /\ t[2] \in {"??", "||", "|", "in", "+", "**"})
+   \/ (Kind(t) = "un" /\ t[2] \in {"-", "typeof"})
    \/ (Kind(t) = "upd" /\ t[2] = "++")
-   \/ (Kind(t) \in {"dot", "call"} /\ t[4] \in {"no", "start"})}
+   \/ (Kind(t) = "dot" /\ t[4] \in {"no", "start"})
+   \/ (Kind(t) = "call" /\ t[4] \in {"no", "start"} /\ t[3] = Y)}
 (* depth <= 2: every operator over every pair of children *)
 T2(p, full) ==
   LET A == IF full THEN T1(p \o "0") ELSE Core(p \o "0")
@@ -78,11 +81,10 @@ T2(p, full) ==
 (***************************************************************************)
 LeftOps(x) ==
   {<<"dot", x, "m", "no">>, <<"call", x, Y, "no">>, <<"idx", x, Y, "no">>, <<"tag", x>>,
-   <<"bin", "+", x, Y>>, <<"bin", "**", x, Y>>, <<"seq", x, Y>>, <<"cond", x, Y, Z>>,
-   <<"asg", "=", x, Y>>, <<"upd", "++", "post", x>>, <<"dot", x, "m", "start">>}
+   <<"bin", "+", x, Y>>, <<"seq", x, Y>>, <<"cond", x, Y, Z>>, <<"asg", "=", x, Y>>, <<"dot", x, "m", "start">>}
 RightOps(x) ==
-  {<<"bin", "+", Y, x>>, <<"bin", "||", Y, x>>, <<"un", "!", x>>, <<"un", "typeof", x>>, <<"asg", "=", Y, x>>,
-   <<"cond", Y, Z, x>>, <<"seq", Y, x>>, <<"arrow", "-", x>>, <<"yield", x>>, <<"await", x>>, <<"new", Y, x>>}
+  {<<"bin", "+", Y, x>>, <<"bin", "||", Y, x>>, <<"un", "!", x>>, <<"asg", "=", Y, x>>,
+   <<"cond", Y, Z, x>>, <<"seq", Y, x>>, <<"arrow", "-", x>>, <<"new", Y, x>>, <<"idx", Y, x, "no">>}
 
 RECURSIVE LeftSpine(_, _), RightSpine(_, _)
 LeftSpine(X, k) == IF k = 0 THEN X ELSE
@@ -90,8 +92,13 @@ LeftSpine(X, k) == IF k = 0 THEN X ELSE
 RightSpine(X, k) == IF k = 0 THEN X ELSE
   LET S == RightSpine(X, k - 1) IN S \cup {t \in UNION {RightOps(s) : s \in S} : OK(t)}
 
-StartLeaves == {<<"obj0">>, <<"obj", Id("a")>>, <<"fn">>, <<"afn">>, <<"cls">>, <<"id", "let">>, <<"id", "async">>,
-                <<"idx", <<"id", "let">>, Y, "no">>, <<"num", "1">>, <<"re">>}
+(* hazard leaf -> the skeletons whose start restriction concerns it *)
+StartPairs ==
+  {<<x, n>> : x \in {<<"obj0">>, <<"obj", Id("a")>>}, n \in {"exprstmt", "arrowbody", "label"}}
+  \cup {<<x, n>> : x \in {<<"fn">>, <<"afn">>, <<"cls">>}, n \in {"exprstmt", "exportdefault", "ifelse"}}
+  \cup {<<x, n>> : x \in {<<"id", "let">>, <<"idx", <<"id", "let">>, Y, "no">>}, n \in {"exprstmt", "forinit", "forin_lhs", "forof_lhs"}}
+  \cup {<<x, n>> : x \in {<<"id", "async">>}, n \in {"forof_lhs", "exprstmt"}}
+  \cup {<<x, n>> : x \in {<<"num", "1">>, <<"re">>}, n \in {"exprstmt"}}
 InLeaves == {<<"bin", "in", Id("a"), Id("b")>>}
 
 (* prefix chains for the +/- gluing hazards *)
@@ -102,8 +109,9 @@ PrefixChain(X, k) == IF k = 0 THEN X ELSE
   LET S == PrefixChain(X, k - 1) IN S \cup {t \in UNION {PrefixOps(s) : s \in S} : OK(t)}
 GlueTrees(k) ==
   LET RR == PrefixChain({Id("b"), <<"re">>, <<"num", "1">>}, k)
-      L == {Id("a"), <<"upd", "++", "post", Id("a")>>, <<"upd", "--", "post", Id("a")>>, <<"re">>, <<"num", "1">>} IN
-  RR \cup {<<"bin", o, l, r>> : o \in {"+", "-", "<", ">", "/", "in"}, l \in L, r \in RR}
+      L == {Id("a"), <<"upd", "++", "post", Id("a")>>, <<"upd", "--", "post", Id("a")>>} IN
+  RR \cup {<<"bin", o, l, r>> : o \in {"+", "-", "<", ">", "/"}, l \in L, r \in RR}
+     \cup {<<"bin", o, l, Id("b")>> : o \in {"in", "instanceof", "/", ">"}, l \in L \cup {<<"re">>, <<"num", "1">>}}
 
 (* optional-chain / new-callee spines: all link sequences *)
 LinkOps(x) ==
@@ -126,15 +134,15 @@ Skel(n) ==
   CASE n = "exprstmt" -> Sk(<<>>, <<";">>, TopCtx(LComma, FALSE, "stmt"), "(prog (expr ", "))", "any")
     [] n = "if" -> Sk(<<"if", "(">>, <<")", ";">>, InnerCtx(LComma), "(prog (if ", " (empty) -))", "any")
     [] n = "ifelse" -> Sk(<<"if", "(", "y", ")">>, <<";", "else", "z", ";">>, TopCtx(LComma, FALSE, "stmt"), "(prog (if (id y) (expr ", ") (expr (id z))))", "any")
-    [] n = "while" -> Sk(<<"while", "(">>, <<")", ";">>, InnerCtx(LComma), "(prog (while ", " (empty)))", "any")
-    [] n = "dowhile" -> Sk(<<"do", ";", "while", "(">>, <<")", ";">>, InnerCtx(LComma), "(prog (dowhile (empty) ", "))", "any")
+    [] n = "while" -> Sk(<<"while", "(">>, <<")", "break", ";">>, InnerCtx(LComma), "(prog (while ", " (break -)))", "any")
+    [] n = "dowhile" -> Sk(<<"do", "break", ";", "while", "(">>, <<")", ";">>, InnerCtx(LComma), "(prog (dowhile (break -) ", "))", "any")
     [] n = "switch" -> Sk(<<"switch", "(">>, <<")", "{", "}">>, InnerCtx(LComma), "(prog (switch ", "))", "any")
     [] n = "case" -> Sk(<<"switch", "(", "y", ")", "{", "case">>, <<":", "}">>, TopCtx(LComma, FALSE, "none"), "(prog (switch (id y) (case ", ")))", "any")
-    [] n = "forinit" -> Sk(<<"for", "(">>, <<";", ";", ")", ";">>, TopCtx(LComma, TRUE, "forinit"), "(prog (for ", " - - (empty)))", "any")
-    [] n = "forvarinit" -> Sk(<<"for", "(", "var", "v", "=">>, <<";", ";", ")", ";">>, TopCtx(LAssign, TRUE, "none"), "(prog (for (var (decl (id v) ", ")) - - (empty)))", "any")
-    [] n = "forletinit" -> Sk(<<"for", "(", "let", "v", "=">>, <<";", ";", ")", ";">>, TopCtx(LAssign, TRUE, "none"), "(prog (for (let (decl (id v) ", ")) - - (empty)))", "any")
-    [] n = "fortest" -> Sk(<<"for", "(", ";">>, <<";", ")", ";">>, InnerCtx(LComma), "(prog (for - ", " - (empty)))", "any")
-    [] n = "forupdate" -> Sk(<<"for", "(", ";", ";">>, <<")", ";">>, InnerCtx(LComma), "(prog (for - - ", " (empty)))", "any")
+    [] n = "forinit" -> Sk(<<"for", "(">>, <<";", ";", ")", "break", ";">>, TopCtx(LComma, TRUE, "forinit"), "(prog (for ", " - - (break -)))", "any")
+    [] n = "forvarinit" -> Sk(<<"for", "(", "var", "v", "=">>, <<";", ";", ")", "break", ";">>, TopCtx(LAssign, TRUE, "none"), "(prog (for (var (decl (id v) ", ")) - - (break -)))", "any")
+    [] n = "forletinit" -> Sk(<<"for", "(", "let", "v", "=">>, <<";", ";", ")", "break", ";">>, TopCtx(LAssign, TRUE, "none"), "(prog (for (let (decl (id v) ", ")) - - (break -)))", "any")
+    [] n = "fortest" -> Sk(<<"for", "(", ";">>, <<";", ")", "break", ";">>, InnerCtx(LComma), "(prog (for - ", " - (break -)))", "any")
+    [] n = "forupdate" -> Sk(<<"for", "(", ";", ";">>, <<")", "break", ";">>, InnerCtx(LComma), "(prog (for - - ", " (break -)))", "any")
     [] n = "forin_lhs" -> Sk(<<"for", "(">>, <<"in", "y", ")", ";">>, TopCtx(LLhs, FALSE, "forin"), "(prog (forin ", " (id y) (empty)))", "any")
     [] n = "forin_rhs" -> Sk(<<"for", "(", "v", "in">>, <<")", ";">>, InnerCtx(LComma), "(prog (forin (id v) ", " (empty)))", "any")
     [] n = "forof_lhs" -> Sk(<<"for", "(">>, <<"of", "y", ")", ";">>, TopCtx(LLhs, FALSE, "forof"), "(prog (forof ", " (id y) (empty)))", "any")
@@ -183,7 +191,7 @@ Admissible(t, n) ==
   /\ (n = "exprstmt") => Kind(t) # "str"          \* a bare string statement is a directive
   /\ (n = "label") => Kind(t) # "str"
   /\ (n = "ifelse") => Kind(t) # "str"
-  /\ (n = "classextends") => TRUE
+  /\ (n \in {"classfield", "classcomputed", "classextends", "exportdefault", "exportconst"}) => ~HasId(t, {"let"})  \* strict code
 
 (***************************************************************************)
 (* The case sets.                                                          *)
@@ -198,12 +206,12 @@ CasesOf(Family_) ==
          \* Size 1: depth <= 1 incl. special leaves; 2: depth <= 2 reduced children; 3: depth <= 2 full children
          Adm(On((IF Shard = 0 THEN T1("a") \cup T1s("a") ELSE {}) \cup (IF Size >= 2 THEN T2("a", Size >= 3) ELSE {}), {"exprstmt"}))
     [] Family = "spine" ->
-         Adm(On(LeftSpine(StartLeaves, Size), {"exprstmt", "exportdefault", "arrowbody", "forinit", "forin_lhs", "forof_lhs", "classextends"})
+         Adm(UNION {On(LeftSpine({pr[1]}, Size), {pr[2]}) : pr \in StartPairs}
              \cup On(RightSpine(InLeaves, Size), {"forinit", "forvarinit", "forletinit", "exprstmt"})
              \cup On(GlueTrees(Size), {"exprstmt"})
              \cup On(LinkChain({Id("a")}, Size), {"exprstmt"}))
     [] Family = "skel" ->
-         Adm(On(T1("a") \cup T1s("a"), SkelNames))
+         Adm(On(T1("a") \cup SpecialLeaves \cup (IF Size >= 2 THEN Mk1(SpecialLeaves) \cup T1s("a") ELSE {}), SkelNames))
 
 ASSUME Family \in {"expr", "spine", "skel"}
 
@@ -215,52 +223,53 @@ CaseSexp(c) ==
   IF w = "-" THEN s.sa \o Sexp(c.t) \o s.sb
   ELSE "(prog " \o WrapSa(w) \o "(expr " \o Sexp(c.t) \o ")" \o WrapSb(w) \o ")"
 
-CaseLabels(c) ==
-  Labels(c.t, CaseCtx(c)) \cup (IF Foldable(c.t) THEN {"foldable"} ELSE {})
+(* everything that is computed once per case: the two renderings and the labels *)
+Prep(c) ==
+  LET r == RM(c.t, CaseCtx(c)) IN
+  [t |-> c.t, sk |-> c.sk, min |-> r.ts, full |-> RenderFullTop(c.t),
+   labels |-> LabelsOf(c.t, r)
+              \cup (IF Foldable(c.t) \/ (c.sk = "import" /\ (Kind(c.t) = "cond" \/ TypeKnown(c.t))) THEN {"foldable"} ELSE {})]
+CaseLabels(c) == Prep(c).labels
 
-CaseRec(c) ==
-  [spec |-> "JsSyntax", family |-> Family, skel |-> c.sk,
-   goal |-> IF HasId(c.t, {"let"}) \/ Skel(c.sk).goal = "sloppy" THEN "sloppy" ELSE Skel(c.sk).goal,
-   full |-> Toks(c, RenderFullTop(c.t)),
-   min |-> Toks(c, RenderMin(c.t, CaseCtx(c))),
-   sexp |-> CaseSexp(c),
-   depth |-> Depth(c.t),
-   labels |-> CaseLabels(c)]
+CaseRec(p) ==
+  [spec |-> "JsSyntax", family |-> Family, skel |-> p.sk,
+   goal |-> IF HasId(p.t, {"let"}) \/ Skel(p.sk).goal = "sloppy" THEN "sloppy" ELSE Skel(p.sk).goal,
+   full |-> Toks(p, p.full),
+   min |-> Toks(p, p.min),
+   sexp |-> CaseSexp(p),
+   depth |-> Depth(p.t),
+   labels |-> p.labels]
 
 (***************************************************************************)
-(* The behaviour: the case set is cut into NParts slices; each initial     *)
-(* state owns one slice, and its single step checks the round trips on     *)
-(* every case of the slice and exports it (so TLC's workers share the      *)
-(* slices).  done = "bad" iff a round trip failed (invariant AllRoundTrips).*)
+(* The behaviour.  The prepared cases are computed once at start-up (TLC   *)
+(* caches operator arguments only at constant level and inside actions,    *)
+(* not in Init or invariants) and parked in TLC register 1, which the main *)
+(* thread publishes to every worker; Fan cuts them into NParts slices and  *)
+(* Work checks the round trips on every case of a slice and exports it.    *)
+(* done = "bad" iff a round trip failed (invariant AllRoundTrips).         *)
 (***************************************************************************)
-(* TLC does not cache Cases (it is built with recursive operators), so the    *)
-(* sequence is computed once in Init and parked in TLC register 1, which the  *)
-(* main thread publishes to every worker.                                     *)
-CaseSeq == TLCGet(1)
-Slice(k) == LET S == CaseSeq IN {S[i] : i \in {j \in 1..Len(S) : j % NParts = k - 1}}
+PrepSeq == TLCGet(1)
+Slice(k) == LET S == PrepSeq IN {S[i] : i \in {j \in 1..Len(S) : j % NParts = k - 1}}
 
 (* the tables validate each other: reading the minimal rendering gives the tree back *)
-RoundTrip(c) == Read(RenderMin(c.t, CaseCtx(c)), CaseCtx(c)) = c.t
+RoundTrip(p) == Read(p.min, CaseCtx(p)) = p.t
 (* and so does reading the fully parenthesised rendering *)
-RoundTripFull(c) == Read(RenderFullTop(c.t), TopCtx(LComma, FALSE, "none")) = c.t
-(* sanity: the minimal rendering never has more tokens than the full one *)
-MinIsShorter(c) == Len(RenderMin(c.t, CaseCtx(c))) <= Len(RenderFullTop(c.t))
-CaseOK(c) ==
-  IF RoundTrip(c) /\ RoundTripFull(c) /\ MinIsShorter(c) THEN TRUE
-  ELSE Print(<<"ROUNDTRIP-FAIL", c, RenderMin(c.t, CaseCtx(c)), Read(RenderMin(c.t, CaseCtx(c)), CaseCtx(c)),
-               Read(RenderFullTop(c.t), TopCtx(LComma, FALSE, "none"))>>, FALSE)
+RoundTripFull(p) == Read(p.full, TopCtx(LComma, FALSE, "none")) = p.t
+(* sanity: the minimal rendering is not longer than the full one (+2 for `(let)` / `(async)`) *)
+MinIsShorter(p) == Len(p.min) <= Len(p.full) + 2
+CaseOK(p) ==
+  IF RoundTrip(p) /\ RoundTripFull(p) /\ MinIsShorter(p) THEN TRUE
+  ELSE Print(<<"ROUNDTRIP-FAIL", p, Read(p.min, CaseCtx(p)), Read(p.full, TopCtx(LComma, FALSE, "none"))>>, FALSE)
 
-(* (TLC caches operator arguments only at constant level and inside actions,  *)
-(* not in Init or invariants: the heavy work is therefore done here and in Work) *)
-ASSUME TLCSet(1, SetToSeq(CasesOf(Family)))
-ASSUME TLCSet(2, LET S == TLCGet(1) IN UNION {CaseLabels(S[i]) : i \in 1..Len(S)})
+ASSUME TLCSet(1, LET S == SetToSeq(CasesOf(Family)) IN [i \in 1..Len(S) |-> Prep(S[i])])
+ASSUME TLCSet(2, LET S == TLCGet(1) IN UNION {S[i].labels : i \in 1..Len(S)})
 ASSUME PrintT(<<"NCASES", Len(TLCGet(1))>>)
 Init == cs = 0 /\ done = "no"
 Fan == cs = 0 /\ cs' \in 1..NParts /\ done' = done
 Work == /\ cs > 0 /\ done = "no"
         /\ cs' = cs
-        /\ LET sl == Slice(cs) bad == {c \in sl : ~CaseOK(c)} IN
-           /\ \A c \in sl : PrintT(<<"CASE", ToJson(CaseRec(c))>>)
+        /\ LET sl == Slice(cs) bad == {p \in sl : ~CaseOK(p)} IN
+           /\ \A p \in sl : PrintT(<<"CASE", ToJson(CaseRec(p))>>)
            /\ done' = IF bad = {} THEN "ok" ELSE "bad"
 Next == Fan \/ Work
 Spec == Init /\ [][Next]_vars
@@ -286,5 +295,7 @@ Required ==
           "forof-async", "forof-let", "paren-cond", "paren-binary", "paren-unary"}
 AllLabels == TLCGet(2)
 Missing == Required \ AllLabels
-Inhabited == done \in STRING /\ (IF Missing = {} THEN TRUE ELSE Print(<<"MISSING-LABELS", Missing>>, FALSE))
+(* with several shards (one TLC process each) the harness intersects the per-shard Missing sets *)
+Inhabited == done \in STRING /\ (IF Missing = {} \/ NShards > 1 THEN TRUE ELSE Print(<<"MISSING-LABELS", Missing>>, FALSE))
+ASSUME PrintT(<<"CASE", ToJson([is_missing |-> TRUE, family |-> Family, missing |-> Missing])>>)
 =============================================================================
